@@ -985,6 +985,8 @@ DEC_THEOREMS = ["v3_functions_are_source", "v2_functions_are_source", "construct
                 "no_index_panic", "v3_accepts_iff_source", "v2_accepts_iff_source", "v3_errors_sound_source", "v2_errors_sound_source",
                 "encode_of_accepted_source", "names_abstraction_ok"]
 _DEC_CACHE = {}
+ALL_MODULE = "CvssVerif.Props.SrcAll"
+ALL_THEOREMS = ["v3_string_to_scores_source", "v2_string_to_scores_source", "primitives_are_source"]
 
 
 def run_decoders(prop):
